@@ -41,7 +41,7 @@ HUGE = {'d9E999999', 'd1E-999999', 'd1E5000'}          # run in their own killab
 REDUCED = ['i2', 'i7', 'i10^28-1', 'i2^200', 'bT', 'f.5', 'd.1', 'd28x9', 'd41', 'd2', 'sab', 'l12', 'i12345', 'd12345', 'i10^18']
 
 BIN_OPS = ['+', '-', '*', '/', '**']
-COMPOUND = ['+=', '-=', '*=', '/=']
+COMPOUND = ['+=', '-=', '*=', '/=', '**=']        # `**=` is not in the grammar today: its programs are syntax errors and count as such
 UNARY_BUILTINS = ['int', 'float', 'round', 'floor', 'ceil', 'abs', 'sum', 'min', 'max']
 
 
@@ -56,11 +56,11 @@ def programs():
     for op in BIN_OPS:
         out.append((f'bin{op}', f'a {op} b', 2, op in ('*', '**')))
     for op in COMPOUND:
-        out.append((f'name{op}', f'x = a; x {op} b; x', 2, op == '*='))
-        out.append((f'host-name{op}', f'a {op} b; a', 2, op == '*='))
-        out.append((f'index{op}', f'c = [a]; c[0] {op} b; c[0]', 2, op == '*='))
-        out.append((f'host-index{op}', f'hc[0] {op} b; hc[0]', 2, op == '*='))
-        out.append((f'dict-index{op}', f'c = {{"k": a}}; c["k"] {op} b; c["k"]', 2, op == '*='))
+        out.append((f'name{op}', f'x = a; x {op} b; x', 2, op in ('*=', '**=')))
+        out.append((f'host-name{op}', f'a {op} b; a', 2, op in ('*=', '**=')))
+        out.append((f'index{op}', f'c = [a]; c[0] {op} b; c[0]', 2, op in ('*=', '**=')))
+        out.append((f'host-index{op}', f'hc[0] {op} b; hc[0]', 2, op in ('*=', '**=')))
+        out.append((f'dict-index{op}', f'c = {{"k": a}}; c["k"] {op} b; c["k"]', 2, op in ('*=', '**=')))
     for f in UNARY_BUILTINS:
         out.append((f'call:{f}', f'{f}(a)', 1, False))
     out.append(('call:round2', 'round(a, b)', 2, False))
